@@ -258,6 +258,9 @@ type Finding struct {
 }
 
 func loadFindings() []Finding {
+	if os.Getenv("VERIF_NO_KNOWN") == "1" {
+		return nil // maintenance only: produce replay files for known findings
+	}
 	b, err := os.ReadFile(filepath.Join(verifDir, "known_findings.json"))
 	if err != nil {
 		return nil
